@@ -329,6 +329,7 @@ def rewrite_jumps(text, toks, rng, brk, cont):
 def cut_loop(text, toks, L, fname, spec, uid):
     """return replacement text for loop L according to spec (dict)."""
     tag = '%s.loop%d' % (fname, L.ordinal)
+    spec = dict((k, (re.sub(r'/\*.*?\*/', '', v, flags=re.S) if isinstance(v, str) else v)) for k, v in spec.items())
     inv = spec['inv']
     dec = spec.get('dec')
     lab_c = 'V_cont_%s' % uid
@@ -421,6 +422,7 @@ def weave(text, spec):
             body = text[a:b]
             if '\\g<0>' not in rep:
                 raise WeaveError('%s: insert rule %r does not keep the matched text' % (fname, pat))
+            rep = re.sub(r'/\*.*?\*/', '', rep)          # the tokenizer knows no comments: none may enter the woven text
             nb, cnt = re.subn(pat, rep, body)
             if cnt != 1:
                 raise WeaveError('%s: insert anchor %r matched %d times (must be exactly 1)' % (fname, pat, cnt))
@@ -467,7 +469,7 @@ def weave(text, spec):
             text = text[:toks[rb][2]] + fs['exit'] + '\n' + text[toks[rb][2]:]
         if fs.get('entry'):
             p = toks[lb][3]
-            text = text[:p] + '\n' + fs['entry'] + '\n' + text[p:]
+            text = text[:p] + '\n' + re.sub(r'/\*.*?\*/', '', fs['entry'], flags=re.S) + '\n' + text[p:]
         report['functions'][fname] = rep
     # contract header before the earliest woven/enforced function
     if spec.get('insert_before_first'):
